@@ -153,17 +153,17 @@ Section ModWorld.
   Qed.
 
   (* ---- histories: every event is checked against the state it meets *)
-  Fixpoint hist_ok (w : world) (es : list wevent) : bool :=
+  Fixpoint guarded_hist (w : world) (es : list wevent) : bool :=
     match es with
     | [] => true
-    | e :: r => ev_ok_mod w e && match wstep burst w e with Done (w', _) => hist_ok w' r | Crash _ => true end
+    | e :: r => ev_ok_mod w e && match wstep burst w e with Done (w', _) => guarded_hist w' r | Crash _ => true end
     end.
 
   Theorem image_invariant_mod : forall es w w',
     (forall x, In x (states burst w es) -> envelope burst x /\ alloc_backed x) ->
-    hist_ok w es = true -> image_ok burst w -> wrun burst w es = Done w' -> image_ok burst w'.
+    guarded_hist w es = true -> image_ok burst w -> wrun burst w es = Done w' -> image_ok burst w'.
   Proof.
-    induction es as [|e es IH]; intros w w' Henv Hok Hi Hr; cbn [wrun states hist_ok] in *.
+    induction es as [|e es IH]; intros w w' Henv Hok Hi Hr; cbn [wrun states guarded_hist] in *.
     - inversion Hr; subst. exact Hi.
     - apply andb_true_iff in Hok. destruct Hok as [Hok1 Hok2].
       destruct (wstep burst w e) as [[w1 o]|] eqn:Hs; [|discriminate].
@@ -175,9 +175,9 @@ Section ModWorld.
   Qed.
 
   (* histories without Session Modification are inside the guard: the new theorem subsumes the old one *)
-  Lemma ev_ok_hist_ok : forall es w, forallb ev_ok es = true -> hist_ok w es = true.
+  Lemma ev_ok_hist_ok : forall es w, forallb ev_ok es = true -> guarded_hist w es = true.
   Proof.
-    induction es as [|e es IH]; intros w H; cbn [forallb hist_ok] in *; [reflexivity|].
+    induction es as [|e es IH]; intros w H; cbn [forallb guarded_hist] in *; [reflexivity|].
     apply andb_true_iff in H. destruct H as [H1 H2]. apply andb_true_iff. split.
     - destruct e as [ci cn m dr| |]; cbn [ev_ok_mod]; try exact H1. cbn [ev_ok] in H1. destruct (is_mod m); [discriminate|reflexivity].
     - destruct (wstep burst w e) as [[w1 o]|]; [apply IH; exact H2|reflexivity].
